@@ -1,11 +1,171 @@
+import GrafeoModel.Model.Lex
 import GrafeoModel.Driver.Proto
 
-/-! Stream `lex` (stub: filled in by the owner of this stream). Stateless lines. -/
+/-!
+Stream `lex` (C12). Stateless lines; query text = lowercase hex of its UTF-8 bytes (`-` = empty).
+
+  lex gql <hex>               CORRESPONDENCE: the token list of `Model/Lex.lean` (`tokenize`, the function
+                              the theorems of `Props/C12.lean` are about) as `class:start-end,…`;
+                              `spec = -` (the token list itself is not constrained by the property)
+  lex gql.ok <hex>            model = spec = `no-panic` (backed by `c12_lexer_boundary` /
+                              `c12_lexer_terminates`: every slice is legal, the loop ends)
+  lex run <lang> <db> <hex>   EXPLORATION (search, not proof).  The front ends (parser, translator,
+                              binder, planner, executor of the five languages) are NOT modelled: the
+                              "model" of a front end is only the claim that it returns, so
+                              model = spec = `returned` — except for shapes recognised from the op
+                              line alone as a known deviation class (see `knownDeviation`), where
+                              model = what the implementation really does and spec = `returned`.
+-/
 namespace Grafeo.DriverLex
-open Grafeo.Proto
+open Grafeo.Proto Grafeo.Lex
+
+/-! ### UTF-8 decoding (the harness only ever sends valid UTF-8: it hex-encodes a Rust `&str`) -/
+
+def isCont (b : Nat) : Bool := 0x80 ≤ b && b < 0xC0
+
+partial def decodeUtf8 (bs : List Nat) (acc : Array Char) : Option (Array Char) :=
+  match bs with
+  | [] => some acc
+  | b0 :: r =>
+    if b0 < 0x80 then decodeUtf8 r (acc.push (Char.ofNat b0))
+    else if 0xC0 ≤ b0 && b0 < 0xE0 then
+      match r with
+      | b1 :: r' =>
+        if isCont b1 then decodeUtf8 r' (acc.push (Char.ofNat ((b0 - 0xC0) * 64 + (b1 - 0x80))))
+        else none
+      | _ => none
+    else if 0xE0 ≤ b0 && b0 < 0xF0 then
+      match r with
+      | b1 :: b2 :: r' =>
+        if isCont b1 && isCont b2 then
+          decodeUtf8 r' (acc.push (Char.ofNat ((b0 - 0xE0) * 4096 + (b1 - 0x80) * 64 + (b2 - 0x80))))
+        else none
+      | _ => none
+    else if 0xF0 ≤ b0 && b0 < 0xF8 then
+      match r with
+      | b1 :: b2 :: b3 :: r' =>
+        if isCont b1 && isCont b2 && isCont b3 then
+          decodeUtf8 r' (acc.push (Char.ofNat
+            ((b0 - 0xF0) * 262144 + (b1 - 0x80) * 4096 + (b2 - 0x80) * 64 + (b3 - 0x80))))
+        else none
+      | _ => none
+    else none
+
+def parseText (h : String) : Option (List Char) := do
+  let bs ← parseHex h
+  let cs ← decodeUtf8 bs #[]
+  pure cs.toList
+
+/-! ### printing -/
+
+def clsName : Cls → String
+  | .eof => "eof" | .error => "error" | .string => "string" | .qident => "qident"
+  | .param => "param" | .int => "int" | .float => "float" | .word => "word" | .punct => "punct"
+
+def showTok (t : Tok) : String := s!"{clsName t.cls}:{t.start}-{t.stop}"
+
+/-- the harness stops after 10000 tokens and appends `runaway` when no `eof` arrived by then -/
+def maxTokens : Nat := 10000
+
+def showToks (ts : List Tok) : String :=
+  if ts.length > maxTokens then joinWith "," ((ts.take maxTokens).map showTok ++ ["runaway"])
+  else joinWith "," (ts.map showTok)
+
+/-! ### known deviation classes of the front-end exploration, recognised from the op line alone
+
+Each class: a shape test on (language, database, query text), what the implementation really does
+on that shape (`model`), and the deviation's signature; `spec` stays `returned`.  The tests are
+deliberately simple and err on one side only: a text they flag may still be answered with
+`returned` (e.g. because it fails to parse before the defect is reached) — check.py counts
+impl = spec ≠ model under a listed signature as "repaired upstream", never as a failure; a failing
+text they do NOT flag shows up as an implementation/model disagreement, i.e. as an unlisted finding.
+
+Nothing here is a model of a parser: these are classifiers for findings of the search. -/
+
+/-- deepest nesting reached, counting only the given opening / closing characters (quotes are not
+interpreted) -/
+def bracketDepth (opens closes : List Char) (cs : List Char) : Nat :=
+  let step := fun (st : Nat × Nat) (c : Char) =>
+    if opens.contains c then (st.1 + 1, max st.2 (st.1 + 1))
+    else if closes.contains c then (st.1 - 1, st.2)
+    else st
+  (cs.foldl step (0, 0)).2
+
+/-- the text after the first occurrence of `pat` -/
+partial def afterFirst (pat cs : List Char) : Option (List Char) :=
+  if pat.isPrefixOf cs then some (cs.drop pat.length)
+  else match cs with
+    | [] => none
+    | _ :: r => afterFirst pat r
+
+/-- the texts after every occurrence of `pat` -/
+partial def afterEach (pat cs : List Char) (acc : List (List Char) := []) : List (List Char) :=
+  match cs with
+  | [] => acc.reverse
+  | _ :: r =>
+    if pat.isPrefixOf cs then afterEach pat r (cs.drop pat.length :: acc) else afterEach pat r acc
+
+def countOcc (pat cs : List Char) : Nat := (afterEach pat cs).length
+
+def skipSp (cs : List Char) : List Char := cs.dropWhile fun c => c == ' ' || c == '\t' || c == '\n' || c == '\r'
+
+def digitsOf (cs : List Char) : List Char × List Char := cs.span fun c => '0' ≤ c && c ≤ '9'
+
+/-- an optionally negative decimal integer literal -/
+def intLit (cs : List Char) : Option (Int × List Char) :=
+  let (neg, r) := match cs with
+    | '-' :: r => (true, r)
+    | _ => (false, cs)
+  let (ds, rest) := digitsOf r
+  if ds.isEmpty then none
+  else
+    let n : Nat := ds.foldl (fun a c => 10 * a + (c.toNat - 48)) 0
+    some (if neg then -(n : Int) else (n : Int), rest)
+
+def inI64 (i : Int) : Bool := -(2 ^ 63 : Int) ≤ i && i < (2 ^ 63 : Int)
+
+/-- `i as usize` on a 64-bit target -/
+def asU64 (i : Int) : Nat := (i % (2 ^ 64 : Int)).toNat
+
+/-- nesting (or operator / step chains) deep enough to overflow the 8 MiB main-thread stack of the
+harness child: recursive-descent parsers and recursive translators / planners / destructors without
+a depth limit.  The thresholds sit just below the smallest depth at which the dev-profile build was
+seen to overflow for any construct of that kind (brackets: GQL 1538 `CASE`, Cypher 1806 `NOT (`,
+SPARQL 2099 `STR(`, GraphQL 3710 selection sets; chains: `NOT`/`AND` 6250, GQL `+` 7323, Gremlin
+`.from(g.V()…` 6933 and `.out()` steps 8397); they are measurements, not constants of the code. -/
+def deepNesting (lang : String) (cs : List Char) : Bool :=
+  let chains := countOcc "NOT".toList cs ≥ 6000 || countOcc "AND".toList cs ≥ 6000
+  if lang == "gql" then
+    bracketDepth ['(', '['] [')', ']'] cs ≥ 1500 || countOcc "CASE".toList cs ≥ 1500 ||
+    chains || countOcc ['+'] cs ≥ 7000
+  else if lang == "cypher" then
+    bracketDepth ['(', '[', '{'] [')', ']', '}'] cs ≥ 1750 || countOcc "CASE".toList cs ≥ 1750 ||
+    chains
+  else if lang == "sparql" then bracketDepth ['(', '{'] [')', '}'] cs ≥ 2000
+  else if lang == "graphql" then bracketDepth ['{'] ['}'] cs ≥ 3500
+  else if lang == "gremlin" then countOcc ['('] cs ≥ 6500
+  else false
+
+/-- (what the implementation does, signature) for a recognised shape -/
+def knownDeviation (lang _db : String) (cs : List Char) : Option (String × String) :=
+  if deepNesting lang cs then some ("abort", "deep-nesting-stack-overflow")
+  else none
 
 def handle (args : List String) : Option Proto.Out :=
   match args with
+  | ["gql", h] => do
+    let cs ← parseText h
+    pure { model := showToks (tokenize cs) }
+  | ["gql.ok", h] => do
+    let _ ← parseText h
+    pure { model := "no-panic", spec := "no-panic" }
+  | ["run", lang, db, h] => do
+    if !(["gql", "cypher", "gremlin", "graphql", "sparql"].contains lang) then none
+    if !(["empty", "small"].contains db) then none
+    let cs ← parseText h
+    match knownDeviation lang db cs with
+    | some (actual, sig) => pure { model := actual, spec := "returned", sig := sig }
+    | none => pure { model := "returned", spec := "returned" }
   | _ => none
 
 end Grafeo.DriverLex
